@@ -417,12 +417,18 @@ class CodeGen:
         self.sites = {}       # site id -> static info
         self.regions = []     # stack of model variable names
         self.region_ids = []  # stack of (rid, branch) of the enclosing regions
+        self.api_lines = {}   # source line number -> block nesting depth of a block-API call
+        self.block_depth = 0
         self.fn = 0
         self.origin = {}      # variable name -> description of the statement that made it
 
     # -- emit helpers
     def emit(self, s):
         self.lines.append("    " * self.ind + s)
+        if self.mode != "native" and ("_if(" in s or "_elif(" in s or "_else()" in s or "_endif()" in s or "_while("
+                                      in s or "_endwhile()" in s or "_range(" in s or "_endfor()" in s
+                                      or "_breakif(" in s):
+            self.api_lines[len(self.lines)] = self.block_depth
 
     def new_site(self, info):
         self.site += 1
@@ -752,10 +758,12 @@ class CodeGen:
 
     def block_body(self, body):
         self.ind += 1
+        self.block_depth += 1
         if not body:
             self.emit("pass")
         for x in body:
             self.st(x)
+        self.block_depth -= 1
         self.ind -= 1
 
     def st_block_if(self, s):
@@ -786,6 +794,7 @@ class CodeGen:
             else:
                 self.emit("while _while(%s) and %s < %d:" % (self.bx(s["cond"]), it, s["max"]))
             self.ind += 1
+            self.block_depth += 1
             pos = s.get("break_pos", len(s["body"]))
             for i, x in enumerate(s["body"]):
                 if s.get("breakif") is not None and i == pos:
@@ -794,6 +803,7 @@ class CodeGen:
             if s.get("breakif") is not None and pos >= len(s["body"]):
                 self.emit_break(s["breakif"], native)
             self.emit("%s += 1" % it)
+            self.block_depth -= 1
             self.ind -= 1
             if not native:
                 self.emit("_endwhile()")
@@ -824,6 +834,7 @@ class CodeGen:
                 self.emit("for %s in _range(%s, max=%d, checkstopmax=%r):" % (
                     s_lv, self.bx(s["stop"]), s["max"], bool(s.get("checkstopmax"))))
             self.ind += 1
+            self.block_depth += 1
             pos = s.get("break_pos", len(s["body"]))
             for i, x in enumerate(s["body"]):
                 if s.get("breakif") is not None and i == pos:
@@ -833,6 +844,7 @@ class CodeGen:
                 self.emit("pass")
             if s.get("breakif") is not None and pos >= len(s["body"]):
                 self.emit_break(s["breakif"], native, rid)
+            self.block_depth -= 1
             self.ind -= 1
             if native:
                 if s.get("checkstopmax"):
